@@ -1325,3 +1325,187 @@ Proof.
     pose proof (phase_wake t f c _ (fifo_cycle s) pre1 post1 L1 Hn1 E1 Hl1 Ok2) as F.
     destruct (Fin _ _ F) as [si [Hi Hres]]. exists si. split; [apply in_or_app; now right|exact Hres].
 Qed.
+
+(* ================= the same for a task suspended in a bare yield (checkpoint_if_cancelled spin) ================= *)
+Section Bare.
+  Variables (t : tid) (c : sid).
+
+  (* what a callback does to the yielding task t it does not resume: nothing, or it records a request *)
+  Record bym (a b : st) : Prop := {
+    bm_core : tk_core (tasks b t) = tk_core (tasks a t);
+    bm_must : k_must (tasks a t) = true -> k_must (tasks b t) = true
+  }.
+
+  Lemma bym_refl a : bym a a. Proof. constructor; auto. Qed.
+
+  Lemma bym_trans a b d : bym a b -> bym b d -> bym a d.
+  Proof.
+    intros H1 H2. constructor; [now rewrite (bm_core _ _ H2), (bm_core _ _ H1)|]. intros H. apply H2, H1, H.
+  Qed.
+
+  Lemma bym_exact a b : tasks b t = tasks a t -> bym a b.
+  Proof. intros E. constructor; now rewrite E. Qed.
+
+  Lemma tsame_fut_complete a g v : tasks (fut_complete a g v) t = tasks a t.
+  Proof. now rewrite fut_complete_tasks. Qed.
+
+  Lemma tsame_upd_other a t' g : t' <> t -> tasks (upd_task a t' g) t = tasks a t.
+  Proof. intros H. cbn. unfold upd. destruct (Nat.eqb_spec t t'); [congruence|reflexivity]. Qed.
+
+  Lemma tsame_suspend_other a t' g : t' <> t -> tasks (suspend_on a t' g) t = tasks a t.
+  Proof.
+    intros H. unfold suspend_on.
+    set (s2 := upd_task (upd_fut a g (fun x => mkFut (f_st x) (Some t'))) t' (tk_waiter (Some g))).
+    assert (E2 : tasks s2 t = tasks a t) by (unfold s2; now rewrite tsame_upd_other).
+    destruct (f_st (futs a g)); try exact E2.
+    destruct (k_must (tasks a t')); [|exact E2]. now rewrite tsame_upd_other, tsame_fut_complete.
+  Qed.
+
+  Lemma tsame_park_other a t' : t' <> t -> tasks (park a t') t = tasks a t.
+  Proof. intros H. unfold park, new_fut. now rewrite tsame_upd_other, tsame_suspend_other. Qed.
+
+  Lemma tsame_ret_other a t' r : t' <> t -> tasks (fst (ret_to_puppet a t' r)) t = tasks a t.
+  Proof.
+    intros H. unfold ret_to_puppet. cbn [fst tasks set_running]. rewrite tsame_park_other by exact H.
+    destruct r; try reflexivity. now apply tsame_upd_other.
+  Qed.
+
+  Lemma bym_deliver_top a x : wait_link a -> k_waiter (tasks a t) = None -> bym a (deliver_top a x).
+  Proof.
+    intros WL Hw. pose proof (kframe_deliver_top a x) as K. constructor; [apply (kf_tasks _ _ K t)|].
+    intros Hm. destruct (deliver_top_task a x t WL) as [[E _]|[[M _]|[f' [_ [Hw' _]]]]].
+    - now rewrite E.
+    - exact M.
+    - rewrite (tcore_waiter _ _ (kf_tasks _ _ K t)), Hw in Hw'. discriminate.
+  Qed.
+
+  Lemma bym_scope_cancel a x b : wait_link a -> k_waiter (tasks a t) = None -> bym a (scope_cancel a x b).
+  Proof.
+    intros WL Hw. unfold scope_cancel. destruct (s_cancelled (scopes a x)); [apply bym_refl|].
+    set (s2 := upd_scope (cancel_timeout a x) x _).
+    assert (E2 : tasks s2 = tasks a) by (unfold s2, cancel_timeout; destruct (s_timeout (scopes a x)); reflexivity).
+    assert (F2 : futs s2 = futs a) by (unfold s2, cancel_timeout; destruct (s_timeout (scopes a x)); reflexivity).
+    destruct (s_host (scopes s2 x)); [|apply bym_exact; now rewrite E2].
+    eapply bym_trans; [apply bym_exact; now rewrite E2|]. apply bym_deliver_top; [|now rewrite E2].
+    intros tt ff. rewrite E2, F2. apply WL.
+  Qed.
+
+  Definition elig_y (s : st) : Prop :=
+    k_done (tasks s t) = None /\ k_must (tasks s t) = false /\ k_started (tasks s t) = true /\
+    k_waiter (tasks s t) = None.
+
+  Lemma deliver_hits_y a x : Good t a -> elig_y a -> reaches a t x -> k_must (tasks (deliver_top a x) t) = true.
+  Proof.
+    intros G [Hd [Hm [Hs Hw]]] [_ [k [Hc Hv]]].
+    destruct (deliver_top_spec a x (k_link _ (gd_k _ _ G))) as [K [_ [Req _]]].
+    assert (R : requested (deliver_top a x) t (S x)).
+    { apply (Req k t); [now apply vis_dreach; [apply G| |]|].
+      unfold elig. refine (conj Hd (conj Hm (conj (gd_run _ _ G) (conj (or_intror Hs) _)))). now rewrite Hw. }
+    destruct R as [[M _]|[f' [_ [Hw' _]]]]; [exact M|].
+    rewrite (tcore_waiter _ _ (kf_tasks _ _ K t)), Hw in Hw'. discriminate.
+  Qed.
+
+  Definition Outy (a b : st) : Prop :=
+    Good t a ->
+    Good t b /\ bym a b /\ (elig_y a -> trk t c a -> k_must (tasks b t) = false -> trk t c b).
+
+  Lemma elig_bym a b : bym a b -> elig_y a -> k_must (tasks b t) = false -> elig_y b.
+  Proof.
+    intros B [Hd [Hm [Hs Hw]]] Hmb. pose proof (bm_core _ _ B) as E. unfold elig_y.
+    now rewrite (tcore_done _ _ E), (tcore_started _ _ E), (tcore_waiter _ _ E).
+  Qed.
+
+  Lemma outy_refl a : Outy a a.
+  Proof. intros G. split; [exact G|]. split; [apply bym_refl|auto]. Qed.
+
+  Lemma outy_trans a b d : Outy a b -> Outy b d -> Outy a d.
+  Proof.
+    intros H1 H2 G. destruct (H1 G) as [Gb [B1 T1]]. destruct (H2 Gb) as [Gd [B2 T2]].
+    split; [exact Gd|]. split; [eapply bym_trans; eauto|]. intros El Tk Hm.
+    assert (Hmb : k_must (tasks b t) = false).
+    { destruct (k_must (tasks b t)) eqn:E; [|reflexivity]. rewrite (bm_must _ _ B2 E) in Hm. discriminate. }
+    apply T2; [now apply (elig_bym a b)|now apply T1|exact Hm].
+  Qed.
+
+  Lemma outy_neutral a b : (Good t a -> Good t b) -> tasks b t = tasks a t -> dq a b -> Outy a b.
+  Proof.
+    intros HG E Q G. split; [now apply HG|]. split; [now apply bym_exact|]. intros _ Tk _. now apply (trk_dq t c a).
+  Qed.
+
+  Lemma outy_fut_complete a g v : Outy a (fut_complete a g v).
+  Proof.
+    apply outy_neutral; [|apply tsame_fut_complete|apply dq_fut_complete].
+    intros G. apply (Good_kframe t a); [exact G|apply kframe_fut_complete].
+  Qed.
+
+  Lemma outy_set_running a : Outy a (set_running a None).
+  Proof. apply outy_neutral; [apply Good_set_running|reflexivity|apply dq_set_running]. Qed.
+
+  Lemma outy_upd_group a g h : Outy a (upd_group a g h).
+  Proof.
+    apply outy_neutral; [|reflexivity|apply dq_upd_group].
+    intros G. apply (Good_same t a _ G); try reflexivity; [apply G|]. intros y; now repeat split.
+  Qed.
+
+  Lemma outy_deliver_top a x : k_waiter (tasks a t) = None -> Outy a (deliver_top a x).
+  Proof.
+    intros Hw G. split; [apply (Good_kframe t a); [exact G|apply kframe_deliver_top]|].
+    split; [apply bym_deliver_top; [apply (gd_k _ _ G)|exact Hw]|].
+    intros _ Tk _. apply (trk_kframe t c a); [apply kframe_deliver_top|exact Tk].
+  Qed.
+
+  Lemma outy_scope_cancel a x b : k_waiter (tasks a t) = None -> Outy a (scope_cancel a x b).
+  Proof.
+    intros Hw G. pose proof (out_scope_cancel t 0 c a x b G) as [G' _].
+    split; [exact G'|]. split; [apply bym_scope_cancel; [apply (gd_k _ _ G)|exact Hw]|].
+    intros El Tk Hm.
+    (* replay the split of the walk with the must flag in place of the future *)
+    unfold scope_cancel in *. destruct (s_cancelled (scopes a x)) eqn:Ex; [exact Tk|].
+    set (s1 := cancel_timeout a x) in *.
+    assert (G1 : Good t s1).
+    { pose proof (treq_cancel_timeout a x) as K. apply (Good_same t a s1 G).
+      - apply (tq_nscope _ _ K).
+      - unfold s1, cancel_timeout. destruct (s_timeout (scopes a x)); [cbn|]; apply G.
+      - intros y. now rewrite (tq_active _ _ K), (tq_parent _ _ K), (tq_children _ _ K), (tq_stasks _ _ K), (tq_host _ _ K).
+      - unfold s1, cancel_timeout. destruct (s_timeout (scopes a x)); reflexivity.
+      - unfold s1, cancel_timeout. destruct (s_timeout (scopes a x)); reflexivity.
+      - unfold s1, cancel_timeout. destruct (s_timeout (scopes a x)); reflexivity. }
+    assert (T1 : trk t c s1) by (apply (trk_dq t c a); [apply dq_cancel_timeout|exact Tk]).
+    assert (E1 : elig_y s1).
+    { destruct El as [A [B [C D]]]. unfold elig_y, s1, cancel_timeout. destruct (s_timeout (scopes a x)); cbn; now repeat split. }
+    assert (Ex1 : s_cancelled (scopes s1 x) = false).
+    { unfold s1. rewrite (vw_cancelled _ _ (dq_scope _ _ (dq_cancel_timeout a x) x)). exact Ex. }
+    set (s2 := upd_scope s1 x (fun y => sc_bydeadline b (sc_cancelled true y))) in *.
+    assert (Eo : forall y, y <> x -> scopes s2 y = scopes s1 y).
+    { intros y Hy. unfold s2. cbn. unfold upd. destruct (Nat.eqb_spec y x); [contradiction|reflexivity]. }
+    assert (Ec2 : scopes s2 x = sc_bydeadline b (sc_cancelled true (scopes s1 x))).
+    { unfold s2. cbn. unfold upd. now rewrite Nat.eqb_refl. }
+    assert (G2 : Good t s2).
+    { apply (Good_same t s1 s2 G1); try reflexivity; [apply G1|].
+      intros y. destruct (Nat.eq_dec y x) as [->|Hy]; [rewrite Ec2|rewrite (Eo y Hy)]; now repeat split. }
+    destruct T1 as [[Hd [k [Hc Hv]]] [Cc Hh]].
+    assert (Hxc : x <> c) by (intros ->; congruence).
+    assert (Cc2 : s_cancelled (scopes s2 c) = true /\ s_host (scopes s2 c) <> None).
+    { rewrite (Eo c (fun E => Hxc (eq_sym E))). now split. }
+    destruct (vis_cancel_split s1 s2 x c k Eo) as [V|V]; [now rewrite Ec2|now rewrite Ec2|exact Hv| |].
+    - assert (T2 : trk t c s2) by (split; [split; [exact Hd|exists k; now split]|exact Cc2]).
+      destruct (s_host (scopes s2 x)); [|exact T2]. apply (trk_kframe t c s2); [apply kframe_deliver_top|exact T2].
+    - assert (Ax : s_active (scopes s2 x) = true).
+      { pose proof (tl_cur_act _ (gd_tl _ _ G2) t k Hc) as Ak. clear - V Ak G2.
+        induction V as [|y p F1 F2 F3 V IH]; [exact Ak|]. apply IH. apply (tl_par_act _ (gd_tl _ _ G2) y p Ak F3). }
+      destruct (s_host (scopes s2 x)) eqn:Ehx; [|exfalso; now apply (gd_host _ _ G2 x Ax)].
+      exfalso. assert (M : k_must (tasks (deliver_top s2 x) t) = true).
+      { apply deliver_hits_y; [exact G2|exact E1|]. split; [exact Hd|]. exists k. now split. }
+      congruence.
+  Qed.
+
+  Lemma outy_scope_timeout a x : k_waiter (tasks a t) = None -> Outy a (scope_timeout a x).
+  Proof.
+    intros Hw. unfold scope_timeout. destruct (s_deadline (scopes a x)); [|apply outy_refl].
+    destruct (Z.leb z (now a)); [now apply outy_scope_cancel|].
+    apply outy_neutral; [|reflexivity|].
+    - intros G. apply (Good_same t a _ G); try reflexivity; [apply G|].
+      intros y. cbn. unfold upd. destruct (Nat.eqb_spec y x); [subst|]; now repeat split.
+    - constructor; auto. intros y. cbn. unfold upd. destruct (Nat.eqb_spec y x); [subst|]; reflexivity.
+  Qed.
+End Bare.
